@@ -154,12 +154,17 @@ def _validate_loop_traces(ctx, recorded):
     for k, t in enumerate(traces):
         t["id"] = k + 1
     os.makedirs(os.path.join(core.BUILD, "traces"), exist_ok=True)
-    path = os.path.join(core.BUILD, "traces", "C13_cli.json")
-    with open(path, "w") as f:
-        _json.dump({"traces": traces}, f)
-    res = tlc.run("Trace_Cli", "Trace_Cli", tag=ctx.pid + "_trace", workers=8, timeout_s=1200, env={"TRACE_FILE": path}, require_emit=False)
-    ctx.add_tlc("Trace_Cli (%d recorded argument-loop traces)" % len(traces), res)
-    ok = set(o["accept"] for o in res.emitted if "accept" in o)
+    ok = set()
+    BATCH = 20000      # one JSON file per batch: every TLC worker deserialises the whole file once
+    for b in range(0, len(traces), BATCH):
+        part = traces[b:b + BATCH]
+        path = os.path.join(core.BUILD, "traces", "C13_cli_%d_%d.json" % (os.getpid(), b // BATCH))
+        with open(path, "w") as f:
+            _json.dump({"traces": [dict(t, id=k + 1) for k, t in enumerate(part)]}, f)
+        res = tlc.run("Trace_Cli", "Trace_Cli", tag=ctx.pid + "_trace", workers=16, timeout_s=2400, env={"TRACE_FILE": path}, require_emit=False)
+        ctx.add_tlc("Trace_Cli (%d recorded argument-loop traces)" % len(part), res)
+        ok |= set(part[o["accept"] - 1]["id"] for o in res.emitted if "accept" in o)
+        os.remove(path)
     ctx.extra["loop_traces_accepted_by_tlc"] = len(ok)
     ctx.extra["loop_traces_recorded"] = len(traces)
     for t in [t for t in traces if t["id"] not in ok][:3]:
